@@ -118,11 +118,8 @@ fn get<'a>(d: &'a [(String, String)], name: &str) -> Option<&'a str> {
 }
 
 fn panic_site(p: &str) -> String {
-    let mut it = p.splitn(3, ':');
-    match (it.next(), it.next()) {
-        (Some(f), Some(l)) => format!("{f}:{l}"),
-        _ => p.to_string(),
-    }
+    // file + normalised message (no line number): survives unrelated edits
+    vp::rs::panic_site(p)
 }
 
 fn head(e: &str) -> &str {
